@@ -16,7 +16,7 @@ from vf.ref import sb31_rom
 
 ID = "C05"
 LEVEL = "exploration"
-TECHNIQUE = "Hypothesis-generated command sequences, key sets, header parameters and export histories; differential against an independent SB3.1 loader model (hash chain, CMAC-KDF, AES-CBC, cert block v2.1, ECDSA, command decoder) calibrated on stored upstream containers; a third of the configuration-built cases are also built by the real `nxpimage sb31 export` command and its output file judged by the same model"
+TECHNIQUE = "Hypothesis-generated command sequences, key sets, header parameters and export histories; differential against an independent SB3.1 loader model (hash chain, CMAC-KDF, AES-CBC, cert block v2.1, ECDSA, command decoder) calibrated on stored upstream containers; the configuration path gives command data in every documented form (file, `values`, `value`; authenticated loads under both spellings); a third of the configuration-built cases are also built by the real `nxpimage sb31 export` command and its output file judged by the same model"
 LEVEL_TEXT = (
     "exploration over inputs and export histories: every container returned by every export() of a generated history is processed by a loader "
     "model that shares no code with spsdk; it must accept it (header, hash of block 1, certificate block, ISK and container signatures, hash chain "
